@@ -37,7 +37,9 @@ CLAIMS = {
                   "ending (explicit fuel never exhausted); the line buffer never exceeds the cap and a full buffer without "
                   "terminator is refused without another read; decimal parsing is exact-or-rejected. PARTIAL: crashes, "
                   "out-of-bounds accesses and foreign exception types are runtime behaviour no Coq model of this code can "
-                  "exhibit; they are covered only by AddressSanitizer/UBSan differential runs (testing, labelled as such).",
+                  "exhibit; they are covered only by AddressSanitizer/UBSan differential runs (testing, labelled as such): the reply reader over "
+                  "truncated / mutated / arbitrary streams, the ASCII converters at their buffer sizes, the decimal parsers far beyond their limits, "
+                  "and the real ftp::client (sanitised build) against a peer that closes, resets or cuts a reply at every position of a dialogue.",
              design="4/C08", note=LEAF_NOTE + " The runtime half (memory safety, exception types) rests on sanitised execution of truncated, mutated and arbitrary streams; data-connection and TLS-handshake fault points are exercised by the protocol checks.",
              technique="Coq proof (termination by measure |buffer|+|unread|, cap invariant) + sanitised differential correspondence with fault injection at every stream position"),
  "C19": dict(text="Theorems for every verb spelling (all case variants), every rest of line and every list of arbitrary byte-string "
@@ -50,7 +52,8 @@ CLAIMS = {
  "C05": dict(text="Theorems for every byte string, every chunking of the source (internal buffer size and short reads), every "
                   "sequence of caller buffer sizes and every partition into write calls: upload output = to_crlf, download sink = "
                   "from_crlf with one final flush, LF-only text round-trips; model tied to the real converter classes by "
-                  "exhaustive enumeration of strings over {CR,LF,x} with all boundary alignments.",
+                  "exhaustive enumeration of strings over {CR,LF,x} with all boundary alignments; end to end, ASCII transfers through the real client "
+                  "(payloads cut between CR and LF, with and without callback) against from_crlf / to_crlf.",
              design="4/C05", note=LEAF_NOTE + " Sources are assumed to have a sticky end-of-file (istream_adapter guarantees it). The end-to-end selection of the converter by transfer type is part of the protocol checks.",
              technique="Coq proof (buffered converter refines a per-byte automaton = substitution) + exhaustive differential correspondence"),
  "C06": dict(text="Theorems for all reply texts and all 65536 ports: soundness, completeness and rejection for the 227 and 229 "
